@@ -4,12 +4,16 @@ Sub-checks
   cli        in-process glom.cli.main(argv) with redirected stdin/stdout: JSON-representable targets
              (json / python literal / yaml / toml), literal specs derived from the target (python / json
              spec format), target and spec delivered by argv, file or stdin, --indent, --scalar;
-             malformed / unreadable targets
+             malformed / unreadable targets, among them bytes on standard input that are not UTF-8 (stdin is a
+             TextIOWrapper over the bytes, errors='strict' as in a UTF-8 locale or 'surrogateescape' as in C / POSIX)
   hostile    spec texts from a grammar of calls, attribute access, lambdas, comprehensions, f-strings and
              dunder walks, each arranged so that *executing* it flips a canary planted in builtins;
              differential oracle: ast.literal_eval (literal -> library result, else rejection) or the
              text taken as a path string
-  process    the same expectations against real `python -m glom` subprocesses (a sample)
+  process    the same expectations against real `python -m glom` subprocesses (a sample); undecodable stdin
+             under LC_ALL=C.UTF-8 / LC_ALL=C / PYTHONIOENCODING=utf-8:strict
+  process-stdin  ENUMERATED: undecodable stdin as real processes, every stdin channel x those three configurations
+             x position of the bad bytes (thorough: x every bad byte sequence x target format)
 """
 import io
 import os
@@ -28,19 +32,24 @@ from glom import GlomError
 from glom import cli
 
 from .. import fuzzrun
-from ..runner import Sub, Mismatch
+from ..runner import Sub, Mismatch, HarnessBug
 from .. import boot
 
 PROPERTY = 'C19'
 RULE = ('targets: recursive JSON values (unicode, large ints, floats, empty containers, falsy scalars) serialised as json / python '
         'literal / yaml / toml; specs: literal specs derived from the target (paths, dicts, lists, tuples, nested; some failing) '
-        'as python-literal or json text, raw path text when possible; channels argv / file / stdin; flags --indent, --scalar. '
+        'as python-literal or json text, raw path text when possible; channels argv / file / stdin; flags --indent, --scalar; '
+        'malformed / unreadable targets incl. non-UTF-8 bytes in a file or on stdin (3 stdin channels x strict / surrogateescape decoding). '
         'hostile: generated non-literal spec texts with an execution canary. '
         'Non-trivial = spec with >= 2 levels, or a non-argv channel, or a non-default flag.')
 ASSUMPTIONS = [
     'expected stdout: json.dumps(glom(target, spec), indent=indent or None, sort_keys=True) + newline; --scalar prints str(result) for scalar results',
     'malformed *spec* text is only required not to execute and not to print a result',
     'targets use string keys only (json.dumps(sort_keys=True) cannot order mixed keys)',
+    'a usage error is told from other non-zero exits by: no traceback / no escaping exception, and nothing on stdout '
+    '(results and GlomError messages are what the CLI prints there)',
+    'standard input is bytes: well-formed targets reach the in-process CLI as their UTF-8 encoding behind a TextIOWrapper '
+    '(a text that has no UTF-8 encoding is a harness error, never fed)',
 ]
 
 
@@ -48,18 +57,32 @@ ASSUMPTIONS = [
 # running the CLI
 
 class Result(object):
-    def __init__(self, status, out, exc):
-        self.status, self.out, self.exc = status, out, exc
+    def __init__(self, status, out, exc, err=''):
+        self.status, self.out, self.exc, self.err = status, out, exc, err
 
     def __repr__(self):
-        return 'status=%r stdout=%r exc=%r' % (self.status, self.out[:300], self.exc)
+        return 'status=%r stdout=%r exc=%r stderr=%r' % (self.status, self.out[:300], self.exc, self.err[-300:])
 
 
-def run_inprocess(argv, stdin_text):
+def stdin_bytes(stdin_data):
+    """what arrives on standard input is bytes: text is delivered as its UTF-8 encoding"""
+    if stdin_data is None:
+        return b''
+    if isinstance(stdin_data, bytes):
+        return stdin_data
+    try:
+        return stdin_data.encode('utf-8')
+    except UnicodeError as e:
+        # (a lone surrogate in a well-formed target's text would itself be an undecodable stdin: a usage error by the statement)
+        raise HarnessBug('stdin text of a well-formed target has no UTF-8 encoding: %r (%s)' % (stdin_data[:200], e))
+
+
+def run_inprocess(argv, stdin_data, stdin_errors='strict'):
+    """stdin_errors: the error handler of sys.stdin, 'strict' (UTF-8 locales) or 'surrogateescape' (C / POSIX / C.UTF-8)"""
     old = sys.stdin, sys.stdout, sys.stderr
-    sys.stdin = io.StringIO(stdin_text if stdin_text is not None else '')
+    sys.stdin = io.TextIOWrapper(io.BytesIO(stdin_bytes(stdin_data)), encoding='utf-8', errors=stdin_errors, newline='\n')
     sys.stdout = out = io.StringIO()
-    sys.stderr = io.StringIO()
+    sys.stderr = err = io.StringIO()
     status, exc = None, None
     try:
         try:
@@ -72,16 +95,32 @@ def run_inprocess(argv, stdin_text):
             exc = type(e).__name__
     finally:
         sys.stdin, sys.stdout, sys.stderr = old
-    return Result(status, out.getvalue(), exc)
+    return Result(status, out.getvalue(), exc, err.getvalue())
 
 
-def run_subprocess(argv, stdin_text, cwd):
+PROCESS_ENVS = {            # configurations that decide how the interpreter decodes standard input
+    'C.UTF-8': {'LC_ALL': 'C.UTF-8'},                            # utf-8 / surrogateescape
+    'C': {'LC_ALL': 'C'},                                        # (coerced) utf-8 / surrogateescape
+    'ioenc-strict': {'PYTHONIOENCODING': 'utf-8:strict'},        # what every ordinary UTF-8 locale does
+}
+
+
+def run_subprocess(argv, stdin_data, cwd, penv=None):
     env = dict(os.environ)
     env['PYTHONPATH'] = boot.REPO
     env['PYTHONDONTWRITEBYTECODE'] = '1'
-    p = subprocess.run([sys.executable, '-B', '-m', 'glom'] + list(argv), input=(stdin_text or '').encode('utf8'),
+    if penv is not None:
+        for k in list(env):
+            if k in ('LANG', 'LANGUAGE', 'PYTHONIOENCODING', 'PYTHONUTF8', 'PYTHONCOERCECLOCALE') or k.startswith('LC_'):
+                del env[k]
+        env.update(PROCESS_ENVS[penv])
+    p = subprocess.run([sys.executable, '-B', '-m', 'glom'] + list(argv), input=stdin_bytes(stdin_data),
                        stdout=subprocess.PIPE, stderr=subprocess.PIPE, env=env, cwd=cwd, timeout=120)
-    return Result(p.returncode, p.stdout.decode('utf8', 'replace'), None)
+    exc = None
+    err = p.stderr.decode('utf8', 'replace')
+    if 'Traceback (most recent call last)' in err:
+        exc = (err.strip().splitlines() or ['?'])[-1].split(':')[0]
+    return Result(p.returncode, p.stdout.decode('utf8', 'replace'), exc, err)
 
 
 # ---------------------------------------------------------------------------
@@ -198,12 +237,38 @@ def serialise(value, fmt):
     return toml_dumps(value)
 
 
-def gen_cli(draw):
+MALFORMS = ['truncate', 'wrong-format', 'missing-file', 'construct-error', 'undecodable-file', 'undecodable-stdin']
+STDIN_CHANNELS = ['stdin-dash', 'stdin-file-dash', 'stdin-implicit']
+# byte sequences that no UTF-8 text contains (hex): latin-1 e-acute, 0xff.., a cut-off 3-byte sequence, an overlong '/',
+# a UTF-8-encoded surrogate, a UTF-16 BOM + '{', a 5-byte lead, a stray continuation byte
+BAD_BYTES = ['e9', 'fffefa', 'e282', 'c0af', 'eda080', 'fffe7b00', 'f888808080', '80']
+BAD_MARK = '@@'
+
+
+def gen_undecodable_stdin(draw, recipe):
+    """the target arrives on standard input (each of the three ways to say so) as bytes that are not UTF-8; `bad_where`:
+    inside a string value of an otherwise well-formed document (decoded leniently the document would still load),
+    before it, after it, or the bad bytes alone"""
+    recipe['malform'] = 'undecodable-stdin'
+    recipe['tsource'] = draw(st.sampled_from(STDIN_CHANNELS))
+    if recipe['tsource'] == 'stdin-dash':
+        recipe['ssource'] = 'argv'                  # ('-' is the target positional: only with the spec as an argument)
+    recipe['bad'] = draw(st.sampled_from(BAD_BYTES))
+    recipe['bad_where'] = draw(st.sampled_from(['string', 'string', 'head', 'tail', 'only']))
+    recipe['stdin_errors'] = draw(st.sampled_from(['strict', 'surrogateescape']))       # in-process (sub cli)
+    recipe['penv'] = draw(st.sampled_from(sorted(PROCESS_ENVS)))                          # real process (sub process)
+    if recipe['bad_where'] == 'string' and draw(st.booleans()):
+        recipe['spec'] = ['s', 'zbad']              # the value that holds the bad bytes
+        recipe['sformat'] = draw(st.sampled_from(['python', 'json']))
+    return recipe
+
+
+def gen_cli(draw, force_malform=None):
     value = gen_value(draw, draw(st.sampled_from([1, 2, 3])))
     if draw(st.integers(0, 5)) == 0:
         value = draw(st.sampled_from([0, [], '', None, False, {}, [0]]))
     spec = gen_spec(draw, value, draw(st.sampled_from([0, 1, 2, 3])))
-    if isinstance(value, dict) and 'zblk' not in value and draw(st.sampled_from(range(12))) == 0:
+    if force_malform is None and isinstance(value, dict) and 'zblk' not in value and draw(st.sampled_from(range(12))) == 0:
         value = dict(value)
         value['zblk'] = 'line one\nline two\n'
         spec = gen_spec(draw, value, draw(st.sampled_from([0, 1, 2]))) if draw(st.booleans()) else ['s', 'zblk']
@@ -212,17 +277,65 @@ def gen_cli(draw):
                 'raw_path': False, 'malform': None, 'yaml_block_tail': True}
     fmts = ['json', 'json', 'python', 'yaml'] + (['toml', 'toml'] if toml_ok(value) else [])
     sformat = 'python' if has_tuple(spec) else draw(st.sampled_from(['python', 'python', 'json']))
-    return {'target': value, 'tformat': draw(st.sampled_from(fmts)), 'spec': spec, 'sformat': sformat,
-            'tsource': draw(st.sampled_from(['argv', 'argv', 'file', 'stdin-dash', 'stdin-file-dash', 'stdin-implicit'])),
-            'ssource': draw(st.sampled_from(['argv', 'argv', 'file'])),
-            'indent': draw(st.sampled_from([None, None, 0, 1, 2, 4, 8])),
-            'scalar': draw(st.sampled_from([False, False, True])),
-            'raw_path': draw(st.booleans()),
-            'malform': draw(st.sampled_from([None] * 8 + ['truncate', 'wrong-format', 'missing-file', 'construct-error', 'undecodable-file']))}
+    recipe = {'target': value, 'tformat': draw(st.sampled_from(fmts)), 'spec': spec, 'sformat': sformat,
+              'tsource': draw(st.sampled_from(['argv', 'argv', 'file', 'stdin-dash', 'stdin-file-dash', 'stdin-implicit'])),
+              'ssource': draw(st.sampled_from(['argv', 'argv', 'file'])),
+              'indent': draw(st.sampled_from([None, None, 0, 1, 2, 4, 8])),
+              'scalar': draw(st.sampled_from([False, False, True])),
+              'raw_path': draw(st.booleans()),
+              'malform': force_malform if force_malform is not None else draw(st.sampled_from([None] * 8 + MALFORMS + ['undecodable-stdin']))}
+    if recipe['malform'] == 'undecodable-stdin':
+        recipe = gen_undecodable_stdin(draw, recipe)
+    return recipe
+
+
+def gen_process(draw):
+    """the sample of real processes is small: one case in eight is forced to be the class that depends on the interpreter's
+    own stdin (not the all-minimal example every shard starts with; the whole matrix is enumerated by process-stdin)"""
+    if draw(st.sampled_from(range(8))) == 7:
+        return gen_cli(draw, force_malform='undecodable-stdin')
+    return gen_cli(draw)
+
+
+def enum_process_stdin(tier):
+    """every stdin channel x every stdin decoding configuration of the interpreter x position of the bad bytes, as real processes"""
+    for channel in STDIN_CHANNELS:
+        for penv in sorted(PROCESS_ENVS):
+            for where in (['string', 'head', 'tail', 'only'] if tier == 'thorough' else ['string', 'only']):
+                for bad in (BAD_BYTES if tier == 'thorough' else ['e9']):
+                    for tformat in (['json', 'python', 'yaml', 'toml'] if tier == 'thorough' and where == 'string' else ['json']):
+                        yield {'target': {'a': 1}, 'tformat': tformat, 'spec': ['s', 'zbad' if where == 'string' else 'a'], 'sformat': 'python',
+                               'tsource': channel, 'ssource': 'argv', 'indent': None, 'scalar': False, 'raw_path': False,
+                               'malform': 'undecodable-stdin', 'bad': bad, 'bad_where': where, 'stdin_errors': 'strict', 'penv': penv}
+
+
+def undecodable_document(recipe):
+    """the bytes for malform == 'undecodable-stdin'"""
+    bad = bytes.fromhex(recipe['bad'])
+    where = recipe['bad_where']
+    value = recipe['target']
+    if where == 'string':
+        value = dict(value, zbad='caf' + BAD_MARK) if isinstance(value, dict) else {'zbad': 'caf' + BAD_MARK, 'v': value}
+    text = serialise(value, recipe['tformat']).encode('utf-8')
+    if where == 'string':
+        if text.count(BAD_MARK.encode()) != 1:
+            raise HarnessBug('marker not exactly once in %r' % (text,))
+        data = text.replace(BAD_MARK.encode(), bad)
+    elif where == 'head':
+        data = bad + text
+    elif where == 'tail':
+        data = text + bad
+    else:
+        data = bad
+    try:
+        data.decode('utf-8')
+    except UnicodeDecodeError:
+        return data
+    raise HarnessBug('bytes meant to be undecodable are UTF-8: %r' % (data,))
 
 
 def make_invocation(recipe, tmp):
-    """returns (argv, stdin_text, expectation-kind)"""
+    """returns (argv, stdin data (str, or bytes when they are not text, or None), spec, target_text)"""
     spec = build_spec(recipe['spec'])
     sformat = recipe['sformat']
     if sformat == 'json':
@@ -247,6 +360,10 @@ def make_invocation(recipe, tmp):
     elif malform == 'wrong-format':
         # text that is well-formed in another format but not in this one
         target_text = {'json': 'a = 1', 'python': 'a = 1', 'yaml': 'a: b: [c', 'toml': '{"a": 1}'}[recipe['tformat']]
+    elif malform == 'undecodable-stdin':
+        if recipe['tsource'] not in STDIN_CHANNELS:
+            raise HarnessBug('undecodable-stdin with tsource %r' % (recipe['tsource'],))
+        target_text = undecodable_document(recipe)          # bytes
     argv = []
     stdin_text = None
     flags = ['--target-format', recipe['tformat']]
@@ -323,13 +440,18 @@ def expected_output(recipe, spec, target_value):
 def judge(recipe, res, spec, target_text, where):
     malform = recipe['malform']
     if malform is not None:
+        # "an unreadable or malformed target yields a usage error rather than a result": a failing exit that is no crash
+        # (no exception leaves main(), no traceback), and neither a result nor the message of an evaluation on stdout
         bad_status = res.status not in (0, None)
         if not bad_status:
             raise Mismatch('bad-target-accepted', '%s: malformed/unreadable target (%s) but %r' % (where, malform, res))
-        if res.status == 'exception':
-            raise Mismatch('bad-target-not-usage-error', '%s: expected a usage error, got exception %s' % (where, res.exc))
+        if res.status == 'exception' or 'Traceback (most recent call last)' in res.err:
+            raise Mismatch('bad-target-not-usage-error', '%s: expected a usage error, got exception %s (%s)'
+                           % (where, res.exc, res.err.strip()[-300:]))
         if res.out.strip().startswith(('{', '[', '"')) or res.out.strip() in ('null', 'true', 'false'):
             raise Mismatch('bad-target-result-printed', '%s: a result was printed: %r' % (where, res.out[:200]))
+        if res.out.strip():
+            raise Mismatch('bad-target-evaluated', '%s: a usage error prints nothing on stdout, got %r' % (where, res.out[:200]))
         return 'usage-error'
     # what the loader of that format makes of the text is the target the library sees
     value = recipe['target']
@@ -353,16 +475,30 @@ def nontrivial(recipe):
     return deep or recipe['tsource'] != 'argv' or recipe['ssource'] != 'argv' or recipe['indent'] is not None or recipe['scalar']
 
 
+def label_malform(recipe, argv, ctx, decoding):
+    if recipe['malform'] is None:
+        return
+    ctx.label('malform-' + recipe['malform'])
+    if recipe['malform'] == 'undecodable-stdin':
+        # the channel as it appears on the command line
+        channel = 'dash-positional' if argv and argv[-1] == '-' and '--target-file' not in argv[-2:-1] else (
+            'target-file-dash' if '--target-file' in argv else 'implicit')
+        ctx.label('undecodable-stdin-' + channel, 'undecodable-stdin-' + str(decoding), 'undecodable-stdin-at-' + recipe['bad_where'])
+
+
 def check_cli(recipe, ctx):
     tmp = tempfile.mkdtemp(prefix='glomcli_')
     try:
         argv, stdin_text, spec, target_text = make_invocation(recipe, tmp)
-        where = 'glom %s%s' % (' '.join(repr(a) for a in argv), (' <<< %r' % stdin_text) if stdin_text is not None else '')
-        res = run_inprocess(argv, stdin_text)
+        stdin_errors = recipe.get('stdin_errors', 'strict')
+        where = 'glom %s%s' % (' '.join(repr(a) for a in argv),
+                               (' <<< %r (stdin errors=%s)' % (stdin_text, stdin_errors)) if stdin_text is not None else '')
+        res = run_inprocess(argv, stdin_text, stdin_errors)
         kind = judge(recipe, res, spec, target_text, where)
     finally:
         shutil.rmtree(tmp, ignore_errors=True)
     ctx.label('outcome-' + kind, 'tformat-' + recipe['tformat'], 'tsource-' + recipe['tsource'], 'sformat-' + recipe['sformat'])
+    label_malform(recipe, argv, ctx, stdin_errors)
     ctx.nontrivial(nontrivial(recipe))
     ctx.outcome([argv, kind])
 
@@ -371,12 +507,15 @@ def check_process(recipe, ctx):
     tmp = tempfile.mkdtemp(prefix='glomcli_')
     try:
         argv, stdin_text, spec, target_text = make_invocation(recipe, tmp)
-        where = 'python -m glom %s%s' % (' '.join(repr(a) for a in argv), (' <<< %r' % stdin_text) if stdin_text is not None else '')
-        res = run_subprocess(argv, stdin_text, tmp)
+        penv = recipe.get('penv')
+        where = '%spython -m glom %s%s' % (''.join('%s=%s ' % kv for kv in sorted(PROCESS_ENVS[penv].items())) if penv else '',
+                                           ' '.join(repr(a) for a in argv), (' <<< %r' % stdin_text) if stdin_text is not None else '')
+        res = run_subprocess(argv, stdin_text, tmp, penv)
         kind = judge(recipe, res, spec, target_text, where)
     finally:
         shutil.rmtree(tmp, ignore_errors=True)
     ctx.label('outcome-' + kind, 'tsource-' + recipe['tsource'])
+    label_malform(recipe, argv, ctx, penv)
     ctx.nontrivial(nontrivial(recipe))
     ctx.outcome([argv, kind])
 
@@ -508,9 +647,15 @@ def check_hostile(recipe, ctx):
 
 SUBS = [
     Sub('cli', check_cli, gen=gen_cli, quick=3000, thorough=10000,
-        floors={'outcome-ok': 0.25, 'outcome-glomerror': 0.03, 'outcome-usage-error': 0.05, 'tformat-toml': 0.02, 'tformat-yaml': 0.07}),
+        floors={'outcome-ok': 0.25, 'outcome-glomerror': 0.03, 'outcome-usage-error': 0.05, 'tformat-toml': 0.02, 'tformat-yaml': 0.07,
+                'malform-undecodable-stdin': 0.03, 'undecodable-stdin-dash-positional': 0.007, 'undecodable-stdin-target-file-dash': 0.007,
+                'undecodable-stdin-implicit': 0.007, 'undecodable-stdin-strict': 0.014, 'undecodable-stdin-surrogateescape': 0.014,
+                'undecodable-stdin-at-string': 0.012}),
     Sub('hostile', check_hostile, gen=gen_hostile, quick=1200, thorough=4000, floors={'diff-reject': 0.5}),
-    Sub('process', check_process, gen=gen_cli, quick=64, thorough=128),
+    Sub('process', check_process, gen=gen_process, quick=64, thorough=128, floors={'malform-undecodable-stdin': 0.04}),
+    Sub('process-stdin', check_process, enum=enum_process_stdin,        # (enumerated: each channel / configuration is exactly 1/3)
+        floors={'undecodable-stdin-dash-positional': 0.15, 'undecodable-stdin-target-file-dash': 0.15, 'undecodable-stdin-implicit': 0.15,
+                'undecodable-stdin-C': 0.15, 'undecodable-stdin-C.UTF-8': 0.15, 'undecodable-stdin-ioenc-strict': 0.15}),
     fuzzrun.fuzz_sub('fuzz-spec-text', 'c19-spec-text', runs=20000, campaigns=4,
                      corpus=os.path.join(boot.VERIF, 'fuzz', 'corpus', 'c19-spec-text'), replay_sub='hostile'),
 ]
